@@ -370,14 +370,21 @@ fn plain_history(rep: &mut Report, model: &mut Model, rng: &mut Rng, case_no: u6
     })));
     let (_log, store) = open(&data_dir, &ws);
     let thread = store.ensure_default().unwrap();
+    let mut last_msg: Option<String> = None;
     for (i, (big, mr)) in flags.iter().enumerate() {
         {
             let mut r = rec.lock().unwrap();
             r.0 = true;
             r.1 = i;
         }
-        if *mr {
-            let _ = store.append_message(&thread, "user".into(), "cli".into(), format!("m{i} {}", "x".repeat(if *big { 12_000 } else { 5 })));
+        if *mr && !*big && last_msg.is_some() && rng.chance(1, 3) {
+            // the other kind of frame the messages+runs sidecar holds: a run's end
+            rep.count("plain_run_ended_frames");
+            let _ = store.append_run_ended(&thread, last_msg.as_deref().unwrap(), &format!("run-{i}"), "completed".into(), "user".into(), "cli".into());
+        } else if *mr {
+            if let Ok(id) = store.append_message(&thread, "user".into(), "cli".into(), format!("m{i} {}", "x".repeat(if *big { 12_000 } else { 5 }))) {
+                last_msg = Some(id);
+            }
         } else {
             let _ = ripd::verif_export::continuities::append_cursor_updated(&store, &thread, "openresponses", None, None, Some(json!({"previous_response_id": "r"})), "set", None);
         }
